@@ -85,33 +85,36 @@ theorem prologue_sim (pre : Stmt) (all : List String) (te : C.TyEnv) (acc : TopA
       right; right; exact ⟨s0, f1, hs0, by rw [hl']; exact hf1⟩
   · right; left; exact hs0
 
-def allOf (pre : Stmt) (body : Option Stmt) : List String :=
-  pre.assigned ++ (match body with | some b => b.assigned | none => [])
+def allOf (pre : Stmt) (body : Option Stmt) (hs : List Helper := []) : List String :=
+  pre.assigned ++ (match body with | some b => b.assigned | none => []) ++ hs.flatMap (·.body.assigned)
 
-theorem InF_unfold (pre : Stmt) (body : Option Stmt) :
-    InF { pre := pre, body := body } =
-      (match pre.okTop (allOf pre body) [] with
+theorem InF_unfold (pre : Stmt) (body : Option Stmt) (hs : List Helper) :
+    InF { pre := pre, body := body, helpers := hs } =
+      (match pre.okTop (allOf pre body hs) [] with
        | none => false
        | some te => match body with
          | none => true
-         | some b => b.okNested (allOf pre body) te) := rfl
+         | some b => b.okNested (allOf pre body hs) te) := rfl
 
-theorem C01_partial_aux (p : Prog) (c : CProg) (N fuel : Nat) (t : List Ev)
-    (hin : InF p = true) (htr : tr p = .ok c) (hpy : Py.run p N fuel = .ok t) :
+/-- the run of a sketch does not look at the list of function definitions (the call statements carry them) -/
+theorem C_run_helpers (c : CProg) (hs : List Helper) (N f : Nat) (m : C.Mode) :
+    C.run { c with helpers := hs } N f m = C.run c N f m := rfl
+
+theorem C01_partial_core (p : Prog) (c : CProg) (N fuel : Nat) (t : List Ev)
+    (hin : InF p = true) (htr : trCore p = .ok c) (hpy : Py.run p N fuel = .ok t) :
     ∃ fuel', C.run c N fuel' = .ok t ∨ UB (C.run c N fuel') := by
-  obtain ⟨pre, body⟩ := p
-  rw [InF_unfold] at hin
-  have hall1 : ∀ x ∈ pre.assigned, x ∈ allOf pre body := fun x hx => List.mem_append_left _ hx
-  have hall2 : ∀ b, body = some b → ∀ x ∈ b.assigned, x ∈ allOf pre body := by
-    intro b hb x hx; subst hb; exact List.mem_append_right _ hx
-  generalize allOf pre body = all at hin hall1 hall2
+  obtain ⟨pre, body, helpers⟩ := p
+  rw [InF_unfold pre body helpers] at hin
+  have hall1 : ∀ x ∈ pre.assigned, x ∈ allOf pre body helpers := fun x hx => List.mem_append_left _ (List.mem_append_left _ hx)
+  have hall2 : ∀ b, body = some b → ∀ x ∈ b.assigned, x ∈ allOf pre body helpers := by
+    intro b hb x hx; subst hb; exact List.mem_append_left _ (List.mem_append_right _ hx)
+  generalize allOf pre body helpers = all at hin hall1 hall2
   cases hokTop : pre.okTop all [] with
   | none => rw [hokTop] at hin; cases hin
   | some te =>
     rw [hokTop] at hin
     simp only at hin
     have hpreall : ∀ x ∈ pre.assigned, x ∈ all := hall1
-    replace htr := (tr_ok htr).2
     unfold trCore at htr
     obtain ⟨acc, hacc, htr⟩ := bind_ok htr
     simp only at htr
@@ -172,5 +175,12 @@ theorem C01_partial_aux (p : Prog) (c : CProg) (N fuel : Nat) (t : List Ev)
       unfold C.run
       simp only [htef, hs0, ok_bind]
       exact ub_bind _ hf1
+
+theorem C01_partial_aux (p : Prog) (c : CProg) (N fuel : Nat) (t : List Ev)
+    (hin : InF p = true) (htr : tr p = .ok c) (hpy : Py.run p N fuel = .ok t) :
+    ∃ fuel', C.run c N fuel' = .ok t ∨ UB (C.run c N fuel') := by
+  obtain ⟨_, c0, hs, htr0, rfl⟩ := tr_ok htr
+  obtain ⟨f', h⟩ := C01_partial_core p c0 N fuel t hin htr0 hpy
+  exact ⟨f', by simpa only [C_run_helpers] using h⟩
 
 end Reduino.Lemmas.C01
